@@ -73,8 +73,13 @@ func init() {
 		c08assertTpl("assert-blankok-scriptif", "", "if _, ok := v.(Shape); ok {\n\t\t\tb = v.(sq).base\n\t\t} else {\n\t\t\tb = v.(dot).base\n\t\t}"),
 		c08assertTpl("assert-ok-binif", "", "if st, ok := v.(fmt.Stringer); ok {\n\t\t\tb = v.(sq).base + len(st.String()) - 2\n\t\t} else {\n\t\t\tb = v.(dot).base\n\t\t}"),
 		c08assertTpl("assert-ok-concrete", "", "if q, ok := v.(sq); ok {\n\t\t\tb = q.base\n\t\t} else if d, ok := v.(dot); ok {\n\t\t\tb = d.base\n\t\t}"),
-		c08assertTpl("assert-switch-mixed", "", "switch t := v.(type) {\n\t\tcase Shape:\n\t\t\tb = t.Base()\n\t\tcase dot:\n\t\t\tb = t.base\n\t\t}"),
 	)
+	// a type switch with an INTERFACE case: the clause's closure materialises the reflect type of the case at run
+	// time (itype.TypeOf -> refType) and refType fills its cache without a lock: race report on the unchanged tree
+	// (known finding, region case-lazy-reftype); the output is right
+	sw := c08assertTpl("assert-switch-mixed", "", "switch t := v.(type) {\n\t\tcase Shape:\n\t\t\tb = t.Base()\n\t\tcase dot:\n\t\t\tb = t.base\n\t\t}")
+	sw.Region = regionLazyType
+	c08Ops = append(c08Ops, sw)
 	// (B)
 	for _, c := range c08NestCtx {
 		for _, v := range c08NestVar {
